@@ -12,6 +12,7 @@ import sys
 import threading
 
 from rv import core, sched
+from rv.locks import wrap_all_locks
 
 PID = "C05"
 LEVEL = "exploration"
@@ -122,8 +123,7 @@ def make_stores(cfgs, wrap):
             s.consume(amt, "setup", EnergyType[cur], priority=10)
         if c.get("dormant"):
             s.enter_dormancy()
-        if wrap:
-            s._lock = sched.SchedLock(s._lock, "store%d._lock" % i)
+        s._rv_locks = wrap_all_locks(s, sched.SchedLock, "store%d" % i) if wrap else []
         stores.append(s)
     return stores
 
@@ -155,7 +155,7 @@ def apply_op(stores, op, sink=None):
 
 
 def final_state(stores):
-    return tuple((s.atp, s.gtp, s.nadh, s._debt, s.get_state().value) for s in stores)
+    return tuple((s.atp, s.gtp, s.nadh, s.get_debt(), s.get_state().value) for s in stores)
 
 
 def sequential_outcomes(cfgs, threads, cap=4000):
@@ -221,7 +221,7 @@ def run_schedule(ctx, cfgs, threads, policy, label, seqset, desc):
 
     def hook(sc, me, fn, line):
         for i, s in enumerate(stores):
-            if s._lock.depth == 0 and (s.atp < 0 or s.gtp < 0 or s.nadh < 0):
+            if all(l.depth == 0 for l in s._rv_locks) and (s.atp < 0 or s.gtp < 0 or s.nadh < 0):
                 bad.append("store%d atp=%r gtp=%r nadh=%r seen at %s:%d while its lock is free" % (i, s.atp, s.gtp, s.nadh, fn, line))
 
     def mk(ops):
@@ -234,7 +234,7 @@ def run_schedule(ctx, cfgs, threads, policy, label, seqset, desc):
     sc.run([mk(ops) for ops in threads])
     ctx.count("schedules")
     ctx.count("yield_points", sc.step)
-    ctx.count("lock_acquisitions", sum(s._lock.acquisitions for s in stores))
+    ctx.count("lock_acquisitions", sum(l.acquisitions for s in stores for l in s._rv_locks))
     if sc.switch_while_other_inside:
         ctx.count("schedules_with_switch_inside")
         ctx.nontrivial(sc.trace_hash())
